@@ -14,6 +14,8 @@ OWNERS = {
     "C07a": ["C06"], "C07b": ["C07"], "C08a": ["C08", "C01"], "C08b": ["C08", "C13"], "C09a": ["C09"], "C09b": ["C09"],
     "C10a": ["C10"], "C10b": ["C10"], "C11a": ["C11"], "C11b": ["C11"], "C12a": ["C12"], "C12b": ["C12"],
     "C02c": ["C02"], "C03c": ["C03"], "C04c": ["C04"], "C05c": ["C05"], "C06c": ["C06"], "C10c": ["C10"], "C11c": ["C11"], "C18c": ["C18"],
+    "C01d": ["C01"], "C02d": ["C02"], "C03d": ["C03"], "C04d": ["C04"], "C05d": ["C05"], "C06d": ["C06", "C13"], "C07d": ["C07", "C11"], "C08d": ["C08", "C10"],
+    "C09d": ["C09"], "C10d": ["C10"], "C11d": ["C11"], "C12d": ["C12"], "C13d": ["C13", "C08", "C04"], "C16d": ["C16"], "C18d": ["C18"], "C19d": ["C19"],
     "C01c": ["C02"], "C07c": ["C07"], "C08c": ["C08", "C04"], "C12c": ["C12"], "C13c": ["C13", "C06"], "C16c": ["C16"], "C19c": ["C19"],
     "C13a": ["C06"], "C13b": ["C13"], "C16a": ["C16"], "C16b": ["C16"], "C18a": ["C18"], "C18b": ["C18"], "C19a": ["C19"], "C19b": ["C19"],
 }
